@@ -50,6 +50,11 @@ def dom_components(tag, quick, thorough, ids=None):
         })
     return comps
 
+def idom_component(tag):
+    return {"harness": "h_idom", "quick": 16000, "thorough": 400000, "shards": 8, "corpus": "h_idom",
+            "nontrivial": lambda l: "(assume" in l and ("(join" in l or "(widen" in l or "(meet" in l),
+            "accept": (lambda tag: lambda v, req, msg: tag in msg or v == "DRIFT")(tag)}
+
 DOM_RULE = ("operation histories (6-34 ops quick, up to 66 thorough, after a seeding phase) over a pool of 4 abstract values and 5 integer variables: "
             "assign / arith / bitwise / assume (in-language and general linear constraints, strict, disequations, non-unit coefficients) / select / forget / project / rename / expand / "
             "join / meet / widen / narrow / in-place join, meet / copy / normalize / minimize; replayed by the driver on <=40 concrete witness states per value "
@@ -102,15 +107,15 @@ PROPS = {
     },
     "C03": {
         "level": "proof",
-        "lean_modules": ["CrabProofs.Props.C08", "CrabProofs.Props.C03"],
-        "components": dom_components("[C03]", 900, 12000),
+        "lean_modules": ["CrabProofs.Props.C03", "CrabProofs.Props.C03Itv"],
+        "components": [idom_component("[C03]")] + dom_components("[C03]", 900, 12000),
         "rule": DOM_RULE, "assumptions": DOM_ASSUME,
         "trusted_base": COMMON_TB + ["driver concrete semantics: lean/Driver/DomH.lean (definitions of the witness replay and of membership)"],
     },
     "C04": {
         "level": "proof",
-        "lean_modules": ["CrabProofs.Props.C04"],
-        "components": dom_components("[C04]", 700, 10000),
+        "lean_modules": ["CrabProofs.Props.C04", "CrabProofs.Props.C04Itv"],
+        "components": [idom_component("[C04]")] + dom_components("[C04]", 700, 10000),
         "rule": DOM_RULE + "; C04 adds: all ordered pairs of the final pool for <=, x<=x, bot<=x, x<=top, is_bottom(bottom), is_top(top), is_top/is_bottom after set_to_*",
         "assumptions": DOM_ASSUME,
         "trusted_base": COMMON_TB + ["driver concrete semantics: lean/Driver/DomH.lean"],
@@ -134,7 +139,7 @@ PROPS = {
     },
     "C05": {
         "level": "proof",
-        "lean_modules": ["CrabProofs.Props.C05"],
+        "lean_modules": ["CrabProofs.Props.C05", "CrabProofs.Props.C05Itv"],
         "components": [dict(FIX_COMPONENT, timeout=600)],
         "rule": "same iterator harness as C06; every run is executed under a wall-clock watchdog; the model needs finite fuel on every generated CFG",
         "assumptions": ["widening chain condition of each shipped domain is not yet proved (interval widening proof pending); analysis-level termination is proved for every value type satisfying WellFounded (WidenStep)"],
@@ -142,13 +147,15 @@ PROPS = {
     },
     "C13": {
         "level": "proof",
-        "lean_modules": ["CrabProofs.Props.C13"],
+        "lean_modules": ["CrabProofs.Props.C13", "CrabProofs.Props.C13WInt"],
         "components": [{"harness": "h_wrap", "quick": 400000, "thorough": 8000000, "shards": 16,
-                        "nontrivial": lambda l: True,
-                        # shift amounts >= 64 are undefined behaviour in C++ (edge stream, reported separately)
-                        "accept": lambda verdict, req, msg: "[C++ UB]" not in msg}],
-        "rule": "all widths 1..64 (biased to 1,2,7,8,31,32,33,63,64) x operands biased to 0,1,2^(w-1)-1,2^(w-1),2^w-1,random x every wrapint operation; each answer compared with the model and with BitVec w directly; distinct = distinct request lines",
-        "assumptions": ["shift amounts >= 64 execute an undefined C++ shift: compared on a separate edge stream and not counted as violations", "construction from a big integer outside int64 raises CRAB_ERROR (documented limitation): skipped"],
+                        "nontrivial": lambda l: True},
+                       {"harness": "h_wint", "quick": 100000, "thorough": 2000000, "shards": 16,
+                        "nontrivial": lambda l: " top" not in l and " bot" not in l},
+                       {"harness": "h_wint", "key": "h_wint_exhaustive", "args": ["--exhaustive"], "quick": 70000, "thorough": 1140000,
+                        "shards": 1, "nontrivial": lambda l: " top" not in l and " bot" not in l}],
+        "rule": "wrapint: all widths 1..64 (biased to 1,2,7,8,31,32,33,63,64) x operands biased to 0,1,2^(w-1)-1,2^(w-1),2^w-1,random x every operation incl. shift amounts >= the width; each answer compared with the model and with BitVec w directly. wrapped_interval: every operation over random intervals at random widths (poles crossing, top, bottom) and EXHAUSTIVELY over every pair of intervals at width 3 (quick) / 3 and 4 (thorough); soundness of each answer checked against all concrete bit-vector members (complete enumeration for w <= 6); distinct = distinct request lines",
+        "assumptions": ["construction from a big integer outside int64 raises CRAB_ERROR (documented limitation): skipped", "wrapped_interval_domain (the domain on top of wrapped_interval) is not driven: the program harness works on mathematical-integer states", "widening_thresholds of wrapped_interval is not modelled (same fixed branch as ||)"],
         "trusted_base": COMMON_TB + ["model: CrabModel/Num/WrapInt.lean"],
     },
     "C07": {
@@ -225,5 +232,39 @@ PROPS = {
         "rule": PROG_RULE,
         "assumptions": ["concrete semantics of DESIGN.md 2.3; executions that hit an operation crab gives no meaning to are not counted", "the inter-procedural checker is covered by C09's harness"],
         "trusted_base": COMMON_TB + ["semantics: CrabModel/IR/{Syntax,Semantics}.lean; checker model: CrabModel/Analysis/Checker.lean"],
+    },
+    "C11": {
+        "level": "proof",
+        "lean_modules": ["CrabProofs.Props.C11"],
+        "components": [{"harness": f"h_bwd_{d}", "source": "h_bwd", "defines": [f"-DVDOM={d}"],
+                        "quick": 1200, "thorough": 12000, "shards": 2, "corpus": "h_bwd",
+                        "nontrivial": lambda l: l.startswith("(bwd.op") or (len(l.split("(pre", 1)) == 2 and "(f 0" in l.split("(pre", 1)[1] and ("(cs (le" in l.split("(pre", 1)[1] or "(cs (eq" in l.split("(pre", 1)[1])),
+                        "accept": lambda verdict, req, msg: "[C11]" in msg or verdict == "DRIFT"}
+                       for d in [1, 8, 9, 14, 26, 2, 3]],
+        "rule": ("random CFGs with an exit block (2-8 blocks quick, up to 10 thorough; loops, diamonds, dead-end blocks and trap loops, asserts in several blocks) x mode error|good x supplied forward invariants (the forward analyser's / top / none) x final states (bottom, top, random box); single statements through intra_necessary_preconditions_abs_transformer::exec with random post value and forward invariant; intra_forward_backward_analyzer safe verdicts. The driver samples block-entry states, searches a witness execution (bounded DFS, replay-validated) for every state outside the exported precondition; non-trivial = some block precondition is neither top nor bottom"),
+        "assumptions": ["concrete semantics DESIGN.md 2.3", "left operand of bin_op is a variable", "the backward contract of the shipped domains is sampled, not proved; fixed_tvpi/lookahead/numerical_packing/powerset/value_partitioning/uf backward operations are not driven"],
+        "trusted_base": COMMON_TB + ["models: CrabModel/Bwd/{BSyntax,BSemantics,BwdTransfer}.lean; driver search/replay: Driver/BwdH.lean (replay proved to imply CoReach)"],
+    },
+    "C09": {
+        "level": "proof",
+        "lean_modules": ["CrabProofs.Props.C09"],
+        "components": [{"harness": f"h_inter_td_{k}", "source": "h_inter", "defines": [f"-DVDOM={k}", "-DVMODE=0"], "corpus": "h_inter",
+                        "quick": 1500, "thorough": 40000, "shards": 2,
+                        "nontrivial": lambda l: "(call" in l,
+                        "accept": lambda v, req, msg: ("[C09]" in msg and "[C02]" not in msg) or v == "DRIFT"} for k in (1, 2, 3, 4, 5)],
+        "rule": "generated multi-function programs (1-5 functions, 1-5 blocks each: DAG calls, bursts of repeated calls with constant arguments, direct and mutual recursion with a decreasing counter, shared variable names, x=f(x), asserts after calls, a hull-gap template) analysed by the REAL top_down_inter_analyzer under random inter_analyzer_parameters (max_call_contexts 0/1/2/unbounded, exact/approximate reuse, recursion on/off, widening, checker on/off) over 5 domains; the Lean driver runs 120 call-stack executions per program and checks every (function, block, state) against the reported invariants and every returned call against every stored (pre, post) summary whose precondition it satisfies; non-trivial = the program has a call",
+        "assumptions": ["call-stack semantics of CrabModel/Inter/ISemantics.lean (by-value parameters, fresh callee locals)", "CRAB_ERROR 'in checking phase we should not analyze the callsite' (0.6% of requests) is a robustness issue counted as skip"],
+        "trusted_base": COMMON_TB + ["models: CrabModel/Inter/{ISyntax,ISemantics,TopDown}.lean"],
+    },
+    "C10": {
+        "level": "proof",
+        "lean_modules": ["CrabProofs.Props.C10"],
+        "components": [{"harness": f"h_inter_bu_{k}", "source": "h_inter", "defines": [f"-DVDOM={k}", "-DVMODE=1"], "corpus": "h_inter",
+                        "quick": 1500, "thorough": 40000, "shards": 2,
+                        "nontrivial": lambda l: "(call" in l,
+                        "accept": lambda v, req, msg: ("[C10]" in msg and "[C02]" not in msg) or v == "DRIFT"} for k in (1, 2, 3, 4, 5)],
+        "rule": "same program generator as C09, analysed by the REAL bottom_up_inter_analyzer for 5 (summary domain, forward domain) pairs incl. different domains; invariants and stored summaries checked against call-stack executions",
+        "assumptions": ["as C09"],
+        "trusted_base": COMMON_TB + ["models: CrabModel/Inter/{ISyntax,ISemantics,TopDown}.lean"],
     },
 }
